@@ -83,12 +83,12 @@ class RngDecider:
         ai = self.ai
         while ai < len(aims) and aims[ai][0] < pos:
             ai += 1  # aim lies behind us (jumped over by a previous fault)
-        if ai < len(aims) and aims[ai][0] == pos:
-            self.ai = ai + 1
+        while ai < len(aims) and aims[ai][0] == pos:
             d = aims[ai][1]
-            if d[0] != "d":
-                return d
             ai += 1
+            if d[0] != "d":  # a fault aimed at this very position (a "d" aim is only a cut)
+                self.ai = ai
+                return d
         self.ai = ai
         if self.p_fault and self.faults and rng.random() < self.p_fault:
             return self.faults[rng.randrange(len(self.faults))]
